@@ -283,6 +283,7 @@ def run(ctx):
     ctx.borrow("C09", {"C09.R1": "C10.R6"}, "everything validate accepts the writers must encode and vice versa: the (name, value) hint vocabularies and the guard enabling tuple notation must be the same function on both sides")
 
     # ---- shared ----
+    ctx.borrow("C16", {"C16.R8": "C10.R10"}, "validate runs the logical preparer before the per-type validator, for every candidate branch of a union: a preparer that raises for a value it does not convert turns a plain 'does not match this branch' into an exception")
     ctx.borrow("C02", {"C02.R5": "C10.R9"}, "what validate accepts is what the writer must encode: the record validator judges `datum.get(name, default)`; a writer that substitutes the default on any other condition than an absent key encodes a value validate never saw")
     ctx.borrow("C09", {"C09.R2": "C10.R7"}, "validate must reject a (name, value) hint naming no branch exactly as the writer does")
 
